@@ -5,7 +5,13 @@ ROOT="$(cd "$(dirname "$0")/.." && pwd)"; TIER="${1:-quick}"
 OUT="$ROOT/seeded/RESULTS.md"
 echo "| seeded change | property | tier | detected | violation keys |" > "$OUT.tmp"; echo "|---|---|---|---|---|" >> "$OUT.tmp"
 for D in "$ROOT"/seeded/C*-m*; do
-  n=$(basename "$D"); line=$("$ROOT/tools/seed_check.sh" "$D" "$TIER" 2>&1 | grep " $TIER: exit=" | tail -1)
+  n=$(basename "$D")
+  if ! git -C /repo apply --check "$D/patch.diff" 2>/dev/null; then
+    # the patch rewrites lines that a later fix: commit changed; keep the detection recorded when it still applied
+    prev=$(python3 -c "import json;d=json.load(open('$D/detection.json'));print('yes' if d.get('detected') else 'NO')" 2>/dev/null || echo unknown)
+    echo "| $n | - | - | $prev (recorded earlier; patch no longer applies to the current tree) | |" >> "$OUT.tmp"; echo "$n: no longer applies (recorded: $prev)"; continue
+  fi
+  line=$("$ROOT/tools/seed_check.sh" "$D" "$TIER" 2>&1 | grep " $TIER: exit=" | tail -1)
   rc=$(echo "$line" | sed 's/.*exit=\([0-9]*\).*/\1/'); keys=$(echo "$line" | sed 's/.*keys=//')
   prop=$(python3 -c "import json;print(json.load(open('$D/meta.json'))['property'])")
   python3 - "$D" "$prop" "$TIER" "$rc" "$keys" "$(git -C /repo rev-parse --short HEAD)" "$(git -C "$ROOT" rev-parse --short HEAD)" <<'PY'
